@@ -290,6 +290,8 @@ type c18Case struct {
 	Cuts   []int  `json:"cuts,omitempty"`
 	Zero   bool   `json:"zero_reads,omitempty"`
 	Auth   bool   `json:"auth_configured"`
+	// Warm: another local client completed an authenticated CONNECT through the same Server first
+	Warm bool `json:"after_another_connection_authenticated,omitempty"`
 }
 
 var c18SuccessReply = []byte{5, 0, 0, 1, 0, 0, 0, 0, 0, 0}
@@ -315,6 +317,13 @@ func c18RunInner(c *c18Case, ref c18Ref) (string, string) {
 			return ok
 		}
 	}
+	if c.Warm {
+		// neg(ver 5, method user/pass) + user/pass u:p + CONNECT 1.2.3.4:80
+		warm := []byte{5, 1, 2, 1, 1, 'u', 1, 'p', 5, 1, 0, 1, 1, 2, 3, 4, 0, 80}
+		s.dispatch(&c18Conn{data: warm})
+		log = nil
+		hy.peers = nil
+	}
 	conn := &c18Conn{data: append(make([]byte, 0, len(c.Stream)), c.Stream...), cuts: c.Cuts, zero: c.Zero}
 	s.dispatch(conn) // returns when the connection is finished (relay ends at client EOF)
 
@@ -327,7 +336,9 @@ func c18RunInner(c *c18Case, ref c18Ref) (string, string) {
 				accepted = true
 			}
 		default:
-			if c.Auth && !accepted {
+			if c.Auth && !accepted && !c.Warm {
+				// (on a warm server AuthFunc need not be consulted again for credentials it has seen:
+				// the credential clauses below judge what the stream carries)
 				return "upstream-before-auth", fmt.Sprintf("%s(%s) before any accepted AuthFunc call; events %v", ev.Kind, ev.A, log)
 			}
 			ups = append(ups, ev)
@@ -580,7 +591,7 @@ func c18SocksEnumerate(sh *evidence.Shard) {
 		"userpass":     "absent | ver {1,0,5} x user {u,x,''} x pass {p,y,''}",
 		"request":      "ver {5,4} x cmd {1,2,3,9} x (atyp,addr) {ipv4 1.2.3.4, domain a.b, empty domain, ipv6 2001:db8::1, atyp 9} x port {80,65535}",
 		"pipelined":    "05 02 'P' behind the request",
-		"auth":         "AuthFunc accepts only (u,p); the star part also runs with AuthFunc == nil",
+		"auth":         "AuthFunc accepts only (u,p); the star part also runs with AuthFunc == nil; every whole stream also after another connection completed an authenticated CONNECT on the same Server",
 		"streams":      len(negs) * len(ups) * len(reqs),
 		"star_streams": len(c18Star()),
 	}
@@ -597,6 +608,9 @@ func c18SocksEnumerate(sh *evidence.Shard) {
 						continue
 					}
 					x.one(p1, &c18Case{Stream: append(make([]byte, 0, l), s[:l]...), Auth: true}, l < len(s))
+					if l == len(s) && mine() {
+						x.one(p1, &c18Case{Stream: append(make([]byte, 0, l), s[:l]...), Auth: true, Warm: true}, false)
+					}
 				}
 			}
 		}
